@@ -30,7 +30,7 @@ from harness import c18_world as W
 SPEC = os.path.join(tlc.SPEC_DIR, 'Dispatch.tla')
 TRACE_SPEC = os.path.join(tlc.SPEC_DIR, 'trace', 'Trace_Dispatch.tla')
 INVARIANTS = ['TypeOK', 'AlwaysResponds', 'MarkupFixed', 'NoLeak', 'ImageOK', 'NoStuck']
-ACTIONS = ['WsgiApp', 'OwsDispatch', 'Parse', 'Handle', 'RenderError', 'CatchAll', 'Send']
+ACTIONS = ['WsgiApp', 'OwsDispatch', 'Parse', 'Validate', 'Handle', 'RenderError', 'CatchAll', 'Send']
 AS_FOUND = ('raw_host', 'raw_header', 'xml_ctrl', 'legend_png')      # deviations of the code as found from the repaired model
 HYPOTHETICAL = ('no_escape', 'no_catch_all')           # the invariants must be able to fail
 TLC_WORKERS = 4
@@ -322,7 +322,7 @@ def catalogue_from_tlc(ctx):
     return {str(op): {str(k): [str(c) for c in v] for k, v in dom.items()} for op, dom in pr[-1][1].items()}
 
 
-def tables(ctx, jobs, timeout=2400, attacks=(), guard=True):
+def tables(ctx, jobs, timeout=2400, attacks=(), guard=True, model_only=()):
     """jobs: [(name, ops, maxdev)].  Per job - repaired variant: model-checked with all invariants; as-found variant: its
     terminal states (the property fails on it, see attack()).  The TLC runs go in parallel.
     -> [(merged table {(op, params): (op, params, [response classes])}, TLC result repaired, TLC result as found)]"""
@@ -346,6 +346,14 @@ def tables(ctx, jobs, timeout=2400, attacks=(), guard=True):
             res[('attack', dfc)] = ex
     for dfc in attacks:
         th.append(threading.Thread(target=awork, args=(dfc,)))
+
+    def mwork(name, ops, maxdev):
+        try:
+            res[('model', name)] = model_check(ctx, name, ops, maxdev, timeout=timeout, workers=2)
+        except Exception as ex:  # pragma: no cover
+            res[('model', name)] = ex
+    for name, ops, maxdev in model_only:
+        th.append(threading.Thread(target=mwork, args=(name, ops, maxdev)))
     for t in th:
         t.start()
     for t in th:
@@ -368,6 +376,13 @@ def tables(ctx, jobs, timeout=2400, attacks=(), guard=True):
         out.append((table, r, rf))
     if attacks:
         out.append({dfc: res[('attack', dfc)] for dfc in attacks})
+    for name, ops, maxdev in model_only:
+        r = res[('model', name)]
+        if isinstance(r, Exception):
+            raise r
+        if not r.ok:
+            raise tlc.MachineryError('Dispatch.tla (repaired variant, %s): %r\n%s' % (name, r, r.out[-1500:]))
+        ctx.add_tlc('Dispatch MaxDev=%d, %s' % (maxdev, ','.join(ops)), r)
     return out
 
 
@@ -389,17 +404,13 @@ def run(ctx):
 
     # (M) the model: the repaired variant satisfies the property for all vectors with <= MaxDev deviations
     deep_ops = None if thorough else ['wms_mapx', 'wms_fi', 'wms_legend', 'wmts_tile', 'rest_tile', 'tms_tile', 'kml_doc', 'wms_caps']
+    k3 = [('k3-' + o, [o], 3) for o in ('wms_mapx', 'wmts_tile', 'wms_legend', 'tms_tile', 'rest_tile', 'rest_fi', 'kml_doc', 'wms_caps', 'demo_caps')] if thorough else []
     (table, r1, r1f), (table2, r2, r2f), attack_runs = tables(ctx, [('k1', None, 1), ('k2', deep_ops, 2)],
-                                                              attacks=AS_FOUND + HYPOTHETICAL)
+                                                              attacks=AS_FOUND + HYPOTHETICAL, model_only=k3)
     ctx.add_tlc('Dispatch MaxDev=1, all operations', r1)
     ctx.add_tlc('Dispatch as found MaxDev=1, all operations (terminal states only)', r1f)
     ctx.add_tlc('Dispatch MaxDev=2, %s' % ('all operations' if thorough else ','.join(deep_ops)), r2)
     ctx.add_tlc('Dispatch as found MaxDev=2 (terminal states only)', r2f)
-    if thorough:
-        r3 = model_check(ctx, 'k3', ['wms_mapx', 'wms_legend', 'wmts_tile', 'tms_tile', 'rest_fi', 'kml_doc'], 3, timeout=3000)
-        if not r3.ok:
-            raise tlc.MachineryError('Dispatch.tla (repaired variant, MaxDev=3): %r\n%s' % (r3, r3.out[-1500:]))
-        ctx.add_tlc('Dispatch MaxDev=3, wms_mapx,wms_legend,wmts_tile,tms_tile,rest_fi,kml_doc', r3)
     ctx.log('model: repaired variant satisfies the property on %d + %d vectors  [%.0fs]' % (len(table), len(table2), time.time() - t0))
 
     chk = Checker(ctx)
@@ -433,7 +444,7 @@ def run(ctx):
 
         # (T) code -> spec: random vectors far from the baseline, recorded and validated by TLC
         events = []
-        nrand = 8000 if thorough else 1500
+        nrand = 12000 if thorough else 1500
         ops = sorted(catalogue)
         for i in range(nrand):
             op = ctx.rng.choice(ops)
